@@ -233,6 +233,11 @@ def run(ctx):
         sizes = [canon(ctx.args(dec, bb)[1]) for bb, t in ctx.calls(dec) if callee_decl(t).endswith('chunks_exact')]
         skip = [canon(ctx.args(dec, bb)[1]) for bb, t in ctx.calls(dec) if callee_decl(t) == 'core::slice::<impl [T]>::get']
         good = sizes == ['32'] and skip == ['range(1,None)']
+        if sizes == ['32'] and not skip:
+            # the tag cut off with split_first / split_at(1): what is chunked is the input without its first byte
+            recv = [canon(ctx.args(dec, bb)[0]) for bb, t in ctx.calls(dec) if callee_decl(t).endswith('chunks_exact')]
+            if recv and all(r_ in ('skip(p1,1)', 'p1[range(1,None)]', 'split_at(p1,1).1') for r_ in recv):
+                good, skip = True, ['the first byte']
         if not sizes:
             # a hand-written cursor: the split points are the sizes (1 for the tag, 32 per element, 64 for an L/R pair)
             def cval(t):
